@@ -7,6 +7,65 @@ GOENV = dict(GOFLAGS="-mod=mod", GOPROXY="off", GOSUMDB="off", GOTOOLCHAIN="loca
 NCPU = os.cpu_count() or 4
 
 
+class LibraryPanic(Exception):
+    """The recorder died of a Go panic raised inside pipelined/signal, in a call the driver makes because the
+    specification allows it (drivers wrap every call that may legitimately panic): real-code behaviour, a verdict."""
+    def __init__(self, profile, where, text):
+        Exception.__init__(self, "recorder %s: the library panicked in %s" % (profile, where))
+        self.profile, self.where, self.text = profile, where, text
+
+
+# library functions each property speaks about: a panic escaping from one of them in a call the driver makes
+# because the specification allows it is a violation of that property; a panic elsewhere in the library stops the
+# run as an infrastructure error of THIS check (the check of the property that owns the function reports it)
+PANIC_SCOPE = {
+    "C01": r"\.(Read|Write|ReadStriped|WriteStriped|ChannelLength|BufferIndex|Sample|SetSample)\b",
+    "C02": r"\.(Slice|Capacity|Length|Len|Cap)\b",
+    "C03": r"\.(Append|alignCapacity)\b",
+    "C04": r"\.AppendSample\b",
+    "C05": r"\.(Float|Signed|Unsigned)As(Float|Signed|Unsigned)\b|\.min\b",
+    "C06": r"\.(Signed|Unsigned)As(Signed|Unsigned)\b|\.Scale\b|BitDepth\.",
+    "C07": r"\.(Signed|Unsigned)As(Signed|Unsigned)\b|\.Scale\b|BitDepth\.",
+    "C08": r"\.FloatAs(Signed|Unsigned)\b|BitDepth\.",
+    "C09": r"\.(Signed|Unsigned)AsFloat\b|BitDepth\.",
+    "C10": r"PoolAlloc|\.clear\b|\.Alloc\b",
+    "C11": r"PoolAlloc|\.clear\b|\.Alloc\b",
+    "C12": r"Buffer\[|\.(Read|Write|ReadStriped|WriteStriped|ChannelLength|BufferIndex|alignCapacity)\b|\.C\[",
+    "C13": r"\.(Alloc|getBitDepth|alignCapacity)\b",
+    "C14": r"\.C\[|\.Channel\b|BufferIndex",
+    "C15": r"\.mustSame\b|PoolAlloc",
+    "C16": r"BitDepth\.|\.Scale\b",
+    "C17": r"Frequency\.",
+    "C19": r".",
+    "C20": r".",
+    "replay": r".",
+}
+
+
+def library_panic_site(stderr):
+    """If stderr is the traceback of a Go panic whose innermost non-runtime frame is library code: the library
+    frames of the panicking goroutine, innermost first; otherwise None."""
+    lines = stderr.splitlines()
+    starts = [i for i, l in enumerate(lines) if l.startswith("panic: ") or l.startswith("fatal error: ")]
+    if not starts or "harness bug" in lines[starts[0]]:
+        return None
+    for i in range(starts[0], len(lines)):
+        if lines[i].startswith("goroutine ") and lines[i].rstrip().endswith("[running]:"):
+            frames = []
+            for l in lines[i + 1:]:
+                if not l:
+                    break
+                if l[0] in " \t" or l.startswith("created by"):
+                    continue
+                if l.startswith(("panic(", "runtime.", "runtime/", "internal/", "sync.", "sync/", "reflect.")):
+                    continue
+                frames.append(l.strip())
+            if frames and frames[0].startswith("pipelined.dev/signal."):
+                return [f for f in frames if f.startswith("pipelined.dev/signal.")]
+            return None
+    return None
+
+
 class Infra(Exception):
     """Infrastructure problem (exit 2) -- never a verdict about the code."""
 
@@ -74,6 +133,11 @@ class Ctx:
         except subprocess.TimeoutExpired:
             raise Infra("recorder %s timed out" % profile)
         if p.returncode != 0:
+            site = library_panic_site(p.stderr or "")
+            if site and any(re.search(PANIC_SCOPE.get(self.prop, r"$^"), f) for f in site):
+                raise LibraryPanic(profile, site[0], "command: %s\n%s" % (" ".join(args[1:]), (p.stderr or "")[-6000:]))
+            if site:
+                raise Infra("recorder %s: the library panicked in %s, a function property %s does not speak about; the run cannot continue:\n%s" % (profile, site[0], self.prop, (p.stderr or "")[-1500:]))
             raise Infra("recorder %s failed (rc=%d): %s" % (profile, p.returncode, (p.stderr or p.stdout)[-3000:]))
         try:
             st = json.loads(p.stdout.strip().splitlines()[-1])
